@@ -852,6 +852,68 @@ impl<K: Kind> Scenario for Bf<K> {
                 self.state.remove("ballast");
                 "ok".into()
             }
+            "satrace" => {
+                // satrace <pairs> <rounds>: a model-count cache kept across a *large* collection that
+                // runs on another thread. f1 = OR_i (x_i AND x_{i+n}) (more than 2^(n+1) nodes) is
+                // counted (its node ids fill the cache) and dropped; a second thread collects; as soon
+                // as the collector has handed freed slots back (the approximate node count drops),
+                // this thread builds f2 = AND_i x_i in the recycled slots and counts it with the same
+                // cache. The count must be 1 whatever the collector is doing (C07, C12).
+                let n: usize = w[1].parse().unwrap();
+                let rounds: usize = w[2].parse().unwrap();
+                let vars = 2 * n as u32;
+                if self.n < vars {
+                    return "bad-op".into();
+                }
+                let mref = self.mref().clone();
+                let xs: Vec<K::F> = mref.with_manager_shared(|m| (0..vars).map(|v| K::F::var(m, v).unwrap()).collect());
+                let mut cache: SatCountCache<oxidd_core::util::num::Saturating<u64>, std::hash::RandomState> = SatCountCache::default();
+                let expected_f1: u64 = 4u64.pow(n as u32) - 3u64.pow(n as u32);
+                for round in 0..rounds {
+                    let mut f1 = xs[0].and(&xs[n]).unwrap();
+                    for i in 1..n {
+                        f1 = f1.or(&xs[i].and(&xs[i + n]).unwrap()).unwrap();
+                    }
+                    mref.with_manager_shared(|m| m.gc());
+                    let c1 = f1.sat_count(vars, &mut cache).0;
+                    if c1 != expected_f1 {
+                        ctx.fail("satrace-count", &format!("round {round}: sat_count(OR_i x_i & x_(i+{n})) = {c1}, expected {expected_f1}"));
+                    }
+                    let before = mref.with_manager_shared(|m| m.approx_num_inner_nodes());
+                    drop(f1);
+                    let done = std::sync::atomic::AtomicBool::new(false);
+                    let (c2, during) = std::thread::scope(|sc| {
+                        sc.spawn(|| {
+                            mref.with_manager_shared(|m| m.gc());
+                            done.store(true, std::sync::atomic::Ordering::SeqCst);
+                        });
+                        // wait for the first hand-over of freed slots (or the end of the collection)
+                        let t0 = std::time::Instant::now();
+                        loop {
+                            let now = mref.with_manager_shared(|m| m.approx_num_inner_nodes());
+                            if now + 60000 < before || done.load(std::sync::atomic::Ordering::SeqCst) || t0.elapsed().as_secs() > 20 {
+                                break;
+                            }
+                            std::hint::spin_loop();
+                        }
+                        let mut f2 = xs[vars as usize - 1].clone();
+                        for v in xs.iter().rev().skip(1) {
+                            f2 = v.and(&f2).unwrap();
+                        }
+                        let c2 = f2.sat_count(vars, &mut cache).0;
+                        (c2, !done.load(std::sync::atomic::Ordering::SeqCst))
+                    });
+                    if during {
+                        ctx.count("satrace_count_during_collection");
+                    } else {
+                        ctx.count("satrace_count_after_collection");
+                    }
+                    if c2 != 1 {
+                        ctx.fail("satrace-count", &format!("round {round}: sat_count(AND_i x_i) with a cache kept across a collection on another thread = {c2}, expected 1 (collection still running: {during})"));
+                    }
+                }
+                "ok".into()
+            }
             "pargc" => {
                 // a collection that may run concurrently with operations of other threads
                 self.mref().with_manager_shared(|m| m.gc());
@@ -1043,7 +1105,10 @@ impl<K: Kind> Scenario for Bf<K> {
                         break;
                     }
                 }
-                self.do_audit(ctx);
+                // (very big stores: the structural walk takes seconds; such scripts ask for `audit` explicitly)
+                if self.mref().with_manager_shared(|m| m.num_inner_nodes()) < 200_000 {
+                    self.do_audit(ctx);
+                }
                 l2v.iter().map(|v| v.to_string()).collect::<Vec<_>>().join(" ")
             }
             "restrict" => {
